@@ -22,7 +22,9 @@ theorem pointer_roundtrip (offset length : Nat) (isNull : Bool) (ho : offset < 2
 -- `C08Guards.gen_guards_canon` + `gen_guards_semantics`, `C08ProjectGen.gen_project_canon` + `gen_project_semantics`.
 -- The string pointer functions are regenerated in `Gen.stringsFns` (C08PointerGen.gen_pointer_semantics / gen_pointer_roundtrip).
 -- The constructors createColumn calls are regenerated in `Gen.scolNew` / `scolNewConst` / `numCtors` (C08CtorsGen).
-theorem tie : Tie.sameAll ["qframe.createColumn"] = true := by decide
+-- `createColumn` is regenerated in `Gen.createColumnAst` (nast.go: C08Construct.gen_construct_canon + gen_new_semantics_partial); HOW it returns its errors — `ecolumn.New`'s
+-- error wrapped by `qerrors.Propagate("New columns <name>", err)`, the two `qerrors.New` — in `Gen.createColumnErrs` (sortgast.go): `C03SortGlueGen.gen_sortglue_canon` + `gen_createcolumn_errors`.
+theorem tie : Tie.sameAll [] = true := by decide
 
 /-- The null marker of packed string pointers is bit 63. -/
 theorem gen_null_bit : Gen.consts.lookup "strings.nullBit" = some "0x8000000000000000" := by decide
